@@ -12,6 +12,7 @@
 //! The op text is flushed BEFORE the operation runs, so that a non-unwinding abort or a crash
 //! leaves the offending operation as the last (unterminated) line of the output.
 
+mod big;
 mod exec;
 mod exhaust;
 mod gen;
@@ -42,6 +43,19 @@ fn main() {
             // number of stored entries, three insertion orders; sizes n, n/10, n/100, ...
             let n: usize = args[2].parse().expect("n");
             exec::big_export(n);
+            return;
+        }
+        "deep" => {
+            // direct check on trees of n entries inserted in ascending / descending order
+            let n: usize = args[2].parse().expect("n");
+            let which = if args.len() > 3 { args[3].clone() } else { "maptree,settree,keytree".to_string() };
+            exec::deep(n, &which);
+            return;
+        }
+        "cycle" => {
+            let n: usize = args[2].parse().expect("n");
+            let which = if args.len() > 3 { args[3].clone() } else { "maptree,settree,keytree".to_string() };
+            exec::cycle(n, &which);
             return;
         }
         "replay" => {
